@@ -454,7 +454,8 @@ pub fn write_evidence(spec: &CheckSpec, tier: Tier, seed: u64, res: &BatchResult
         "wall_s": res.wall_s,
         "violations": nviol,
     });
-    let dir = format!("{}/evidence", VERIF_DIR);
+    // VERIF_EVIDENCE_DIR: archive runs (e.g. thorough soak runs kept beside the per-change quick evidence)
+    let dir = std::env::var("VERIF_EVIDENCE_DIR").unwrap_or_else(|_| format!("{}/evidence", VERIF_DIR));
     let _ = std::fs::create_dir_all(&dir);
     let path = format!("{}/{}.json", dir, spec.id);
     std::fs::write(&path, serde_json::to_string_pretty(&ev).unwrap()).expect("write evidence");
